@@ -9,6 +9,7 @@ import Peppi.Lemmas.C01A
 import Peppi.Lemmas.C01B
 import Peppi.Lemmas.C01C
 import Peppi.Lemmas.C01G
+import Peppi.PremisesViews
 set_option linter.unusedVariables false
 namespace Peppi.Props.C02
 
@@ -59,5 +60,60 @@ open Extracted in
 theorem C01_G (T : TextOracle) (r : Replay) (s : Start) (gk : GeckoBlocks) (h : r.WFG T s gk) (hmax : assertMaxVersion s.version = .ok ()) :
     ∃ g, readSlp T {} (r.encodeG s.version (portOccupancy s) gk) = .ok g ∧ writeSlp g = .ok (r.encodeG s.version (portOccupancy s) gk) :=
   _root_.Peppi.C01_G T r s gk h hmax
+
+/- from `Peppi.PremisesViews` -/
+open Extracted in
+theorem views_End : structOK true true End.views = true :=
+  _root_.Peppi.views_End 
+
+/- from `Peppi.PremisesViews` -/
+open Extracted in
+theorem views_Item : structOK false true Item.views = true :=
+  _root_.Peppi.views_Item 
+
+/- from `Peppi.PremisesViews` -/
+open Extracted in
+theorem views_ItemMisc : structOK false false ItemMisc.views = true :=
+  _root_.Peppi.views_ItemMisc 
+
+/- from `Peppi.PremisesViews` -/
+open Extracted in
+theorem views_Position : structOK false true Position.views = true :=
+  _root_.Peppi.views_Position 
+
+/- from `Peppi.PremisesViews` -/
+open Extracted in
+theorem views_Post : structOK false true Post.views = true :=
+  _root_.Peppi.views_Post 
+
+/- from `Peppi.PremisesViews` -/
+open Extracted in
+theorem views_Pre : structOK false true Pre.views = true :=
+  _root_.Peppi.views_Pre 
+
+/- from `Peppi.PremisesViews` -/
+open Extracted in
+theorem views_Start : structOK false true Start.views = true :=
+  _root_.Peppi.views_Start 
+
+/- from `Peppi.PremisesViews` -/
+open Extracted in
+theorem views_StateFlags : structOK false false StateFlags.views = true :=
+  _root_.Peppi.views_StateFlags 
+
+/- from `Peppi.PremisesViews` -/
+open Extracted in
+theorem views_TriggersPhysical : structOK false true TriggersPhysical.views = true :=
+  _root_.Peppi.views_TriggersPhysical 
+
+/- from `Peppi.PremisesViews` -/
+open Extracted in
+theorem views_Velocities : structOK false true Velocities.views = true :=
+  _root_.Peppi.views_Velocities 
+
+/- from `Peppi.PremisesViews` -/
+open Extracted in
+theorem views_Velocity : structOK false true Velocity.views = true :=
+  _root_.Peppi.views_Velocity 
 
 end Peppi.Props.C02
